@@ -22,7 +22,7 @@ EXPLANATION = ('SymmetricBandToeplitzOperator.mv is traced for each (n, K, metho
 FUNCTIONS = ['SymmetricBandToeplitzOperator.__init__/_get_default_fft_size/_get_func/mv', '_apply_dense', '_apply_direct', '_apply_fft',
              '_apply_overlap_save', '_get_kernel', 'dense_symmetric_band_toeplitz', 'SymmetricBandToeplitzOperator.as_matrix']
 BOUNDS = {'quick': 'n in 1..6, K in 1..4 (incl. K>n), fft_size in {default, 2K-1, 2K, 2K+2}, batch in {(), (2,)}; as_matrix for n<=4; '
-                   'dtype/x64 matrix {f32,f64}x{x64 on,off} at (n,K)=(4,2)',
+                   'dtype/x64 matrix {f16,bf16,f32,f64}x{x64 on,off} at (n,K)=(4,2),(5,3)',
           'thorough': 'n in 1..10, K in 1..6, fft_size up to 2K+5 and 16, batch in {(), (2,), band (2,1,K) against x (2,3,n)}'}
 STUBS = []
 ASSUMPTIONS = ['real arithmetic (FFT rounding outside the claim)', 'band values no wider than the data dtype']
@@ -53,7 +53,7 @@ def cases(tier, seed):
         if n <= 3:
             out.append(('mat', n, K, m, None, (2,)))
     for m in METHODS:
-        for dt, x64 in itertools.product(('f32', 'f64'), (True, False)):
+        for dt, x64 in itertools.product(('f32', 'f64', 'f16', 'bf16'), (True, False)):
             if dt == 'f64' and not x64:
                 continue
             out.append(('aval', 4, 2, m, None, (), dt, x64))
@@ -154,7 +154,7 @@ def run_case(key, twin=False):
 
 def _aval(key):
     _, n, K, m, f, b, dt, x64 = key
-    dtype = f32 if dt == 'f32' else f64
+    dtype = {'f32': f32, 'f64': f64, 'f16': jnp.float16, 'bf16': jnp.bfloat16}[dt]
     mk, hs, xs = _mk(n, K, m, f, b, dtype)
 
     def go():
